@@ -56,13 +56,15 @@ Definition nonempty (s : str) : bool := match s with [] => false | _ => true end
 Definition join_path (l : list str) : str := join_with c_slash (map norm_part (filter nonempty l)).
 
 (* ---------------------------------------------------------------- decimal integers
-   show: str(int) / str(np.int64);  parse: int(x, base=10) on ASCII input: surrounding white
-   space, one optional sign, digits with single underscores between digits.                    *)
+   show: str(int) / str(np.int64);  parse_int_ascii: int(x, base=10) on ASCII input: surrounding white
+   space, one optional sign, digits with single underscores between digits; parse_int (below): any text. *)
 Definition show_Z (z : Z) : str := list_ascii_of_string (NilEmpty.string_of_int (Z.to_int z)).
 Definition show_nat (n : nat) : str := show_Z (Z.of_nat n).
 
+(* the white space int() skips in an ASCII text: Py_ISSPACE = \t \n \v \f \r and the blank (NOT \x1c..\x1f, which only
+   str.isspace() knows) *)
 Definition is_ws (a : ascii) : bool :=
-  let n := N_of_ascii a in ((9 <=? n) && (n <=? 13) || (28 <=? n) && (n <=? 32))%N.
+  let n := N_of_ascii a in ((9 <=? n) && (n <=? 13) || (n =? 32))%N.
 Definition is_digit (a : ascii) : bool :=
   let n := N_of_ascii a in ((48 <=? n) && (n <=? 57))%N.
 Definition strip (s : str) : str := rev (drop_while is_ws (rev (drop_while is_ws s))).
@@ -76,7 +78,7 @@ Fixpoint undersc (prev_digit : bool) (s : str) : option str :=
     else None
   end.
 
-Definition parse_int (s : str) : option Z :=
+Definition parse_int_ascii (s : str) : option Z :=
   let t := strip s in
   let sb := match t with
             | a :: r => if Ascii.eqb a "-"%char then (true, r)
@@ -91,6 +93,54 @@ Definition parse_int (s : str) : option Z :=
     end
   | None => None
   end.
+
+(* int(text) on text with non-ASCII characters (CPython: _PyUnicode_TransformDecimalAndSpaceToASCII, then the ASCII parser):
+   every character with the Unicode property Decimal (general category Nd: ARABIC-INDIC DIGIT THREE, FULLWIDTH DIGIT ONE, ...)
+   counts as its ASCII digit, every Unicode white space (str.isspace, code points >= 127) as a blank, every other character
+   from DEL on as '?', which no integer literal contains.  The decimal digits come in 68 runs of ten consecutive code points;
+   `udigit_zeros` lists the first of each run, `uspaces` the white space (Unicode 15.0; compared with `unicodedata` of the
+   running interpreter on every run of the check: obligation "digit table").  Strings are UTF-8 bytes.                  *)
+Definition udigit_zeros : list N :=
+  [48; 1632; 1776; 1984; 2406; 2534; 2662; 2790; 2918; 3046; 3174; 3302; 3430; 3558; 3664; 3792; 3872; 4160; 4240; 6112; 6160;
+   6470; 6608; 6784; 6800; 6992; 7088; 7232; 7248; 42528; 43216; 43264; 43472; 43504; 43600; 44016; 65296; 66720; 68912; 69734;
+   69872; 69942; 70096; 70384; 70736; 70864; 71248; 71360; 71472; 71904; 72016; 72784; 73040; 73120; 73552; 92768; 92864; 93008;
+   120782; 120792; 120802; 120812; 120822; 123200; 123632; 124144; 125264; 130032]%N.
+Definition uspaces : list N :=
+  [133; 160; 5760; 8192; 8193; 8194; 8195; 8196; 8197; 8198; 8199; 8200; 8201; 8202; 8232; 8233; 8239; 8287; 12288]%N.
+Definition udigit (c : N) : option N :=
+  match find (fun z => (z <=? c) && (c <? z + 10))%N udigit_zeros with Some z => Some (c - z)%N | None => None end.
+
+(* UTF-8 bytes -> code points (the input is the encoding of a Python str: well formed; a truncated sequence gives U+FFFD) *)
+Fixpoint utf8_cps (s : list N) : list N :=
+  match s with
+  | [] => []
+  | b0 :: r =>
+    if (b0 <? 128)%N then b0 :: utf8_cps r
+    else match r with
+    | [] => [65533%N]
+    | b1 :: r1 =>
+      if (b0 <? 224)%N then ((b0 - 192) * 64 + (b1 - 128))%N :: utf8_cps r1
+      else match r1 with
+      | [] => [65533%N]
+      | b2 :: r2 =>
+        if (b0 <? 240)%N then ((b0 - 224) * 4096 + (b1 - 128) * 64 + (b2 - 128))%N :: utf8_cps r2
+        else match r2 with
+        | [] => [65533%N]
+        | b3 :: r3 => ((b0 - 240) * 262144 + (b1 - 128) * 4096 + (b2 - 128) * 64 + (b3 - 128))%N :: utf8_cps r3
+        end
+      end
+    end
+  end.
+
+Definition ascii_of_cp (c : N) : ascii :=
+  if (c <? 127)%N then ascii_of_N c
+  else if existsb (N.eqb c) uspaces then " "%char
+  else match udigit c with Some d => ascii_of_N (48 + d) | None => "?"%char end.
+
+Definition py_decimal_ascii (s : str) : str := map ascii_of_cp (utf8_cps (map N_of_ascii s)).
+
+(* int(x) / int(x, base=10) / np.int64(x) of a text *)
+Definition parse_int (s : str) : option Z := parse_int_ascii (py_decimal_ascii s).
 
 Definition lower (s : str) : str :=
   map (fun a => let n := N_of_ascii a in
